@@ -1599,8 +1599,9 @@ def budgets(ctx, factor=1):
     if ctx.quick:
         return {"exact": 240 * factor, "assembly": 30 * factor, "meta": 400 * factor, "history": 40 * factor,
                 "nbr": 200 * factor}
-    return {"exact": 1500 * factor, "assembly": 200 * factor, "meta": 3000 * factor, "history": 200 * factor,
-            "nbr": 2000 * factor}
+    # (re-timed in wave 2 on a quiet machine: 1500 / 200 / 3000 / 200 / 2000 took 306 s, of which 151 s builds)
+    return {"exact": 4000 * factor, "assembly": 400 * factor, "meta": 20000 * factor, "history": 2000 * factor,
+            "nbr": 10000 * factor}
 
 
 def generate(rng, b):
